@@ -118,8 +118,9 @@ def run(ck):
     ck.finding("F-C10-1", observed, what, frp)
 
     L.exhaustive(ck, 7 if thorough else 6, "whole", WHICH, THEOREMS, rnd)
+    L.exhaustive(ck, 7 if thorough else 5, "hook", WHICH, THEOREMS, rnd)
     if thorough:
-        L.exhaustive(ck, 6, "split", WHICH, THEOREMS, rnd)
+        L.exhaustive(ck, 7, "split", WHICH, THEOREMS, rnd)
         ck.coqchk(["AV.Props.C10"])
 
     ck.cov["rule"] = ("seeded generators (random.Random(VERIF_SEED)): (a) structured drop-point histories - 1-7 requests in every status (answered, "
